@@ -53,6 +53,27 @@ def directed(tier):
                     "req": [{"acse": t, "dimse": t, "network": 2 * t, "max_pdu": 16382, "start_delay": 0.0,
                              "ops": [{"op": "store", "size": size}], "final": "release", "timeout_response": "A-ABORT"}],
                 })
+    # a message of well over a hundred P-DATA fragments (small peer maximum) in flight when the association dies under
+    # the sender: connection reset mid-transfer, or the peer's user aborting
+    for size in (6000, 20000):
+        for at in (600, 2500, 5000):
+            out.append({
+                "sched": {"switch_pct": 30}, "net": {"seg": "whole"}, "config": "faulty",
+                "faults": [{"conn": 0, "dir": "c2s", "kind": "reset", "at": at}], "acc_ops": [],
+                "acc": {"acse": t, "dimse": t, "network": 3 * t, "max_pdu": 128, "echo_act": "none", "echo_sleep": 0.001,
+                        "find_k": 1, "find_sleep": 0.0, "reject": None, "timeout_response": "A-ABORT"},
+                "req": [{"acse": t, "dimse": t, "network": 2 * t, "max_pdu": 16382, "start_delay": 0.0,
+                         "ops": [{"op": "store", "size": size}], "final": "release", "timeout_response": "A-ABORT"}],
+            })
+        for after in (0.0005, 0.002, 0.006):
+            out.append({
+                "sched": {"switch_pct": 30}, "net": {"seg": "random", "seg_pct": 40, "delays": [0.0, 0.0005, 0.002]}, "config": "fault-free",
+                "faults": [], "acc_ops": [{"after": after, "op": "abort"}],
+                "acc": {"acse": t, "dimse": t, "network": 3 * t, "max_pdu": 128, "echo_act": "none", "echo_sleep": 0.001,
+                        "find_k": 1, "find_sleep": 0.0, "reject": None, "timeout_response": "A-ABORT"},
+                "req": [{"acse": t, "dimse": t, "network": 2 * t, "max_pdu": 16382, "start_delay": 0.0,
+                         "ops": [{"op": "store", "size": size}], "final": "release", "timeout_response": "A-ABORT"}],
+            })
     return out
 
 
